@@ -65,6 +65,8 @@ def run_rules(prop: str, root: str, tier: str):
         infra.check_error_context(model, col, r0)
         infra.check_ast_traversal(model, col, r0)
         infra.check_op_enum(model, col, r0)
+        infra.check_no_swallow(model, col, r0)
+        infra.check_pipeline(model, col, r0)
     try:
         mod.run(model, col, tier)
     except AnalysisError as e:
